@@ -140,7 +140,31 @@ def check_tools(case) -> Res:
             elif open(h, "rb").read() != bg:
                 viol.append(dict(descriptor="cli:normalize-changes", case=cs, observed=f"g={bg!r} h={open(h, 'rb').read()!r}",
                                  expected="byte-identical"))
+            # across routes: text that is canonical for the API (a fixed point of emit∘parse) is canonical for `octave normalize` too
+            try:
+                c_api = emit(parse_with_warnings(x)[0])
+                if emit(parse(c_api)) == c_api:
+                    with open(src, "w", encoding="utf-8", newline="") as f:
+                        f.write(c_api)
+                    if os.path.exists(h):
+                        os.unlink(h)
+                    q3 = t["runner"].invoke(t["cli"], ["normalize", src, "-o", h])
+                    steps += 1
+                    if q3.exit_code == 0 and open(h, "rb").read().decode("utf-8") != c_api:
+                        viol.append(dict(descriptor="cli:normalize-rewrites-api-canonical-text", case=cs, observed=f"api={c_api!r} cli={open(h, 'rb').read()!r}",
+                                         expected="byte-identical: canonical text is canonical for every entry point"))
+            except (LexerError, ParserError):
+                pass
     return Res("ok" if not viol else "violations", extra_nontrivial=texts, violations=viol, transitions=steps)
+
+
+def verbatim_docs():
+    """lines whose canonical form ends in blanks: verbatim containers and the empty comment"""
+    S, A, B, Doc = dm.S, dm.A, dm.B, dm.Doc
+    zws = dm.Zone("hard break  \n\t\n   \nlast\t", "md", "```")
+    return [("VB:zone", Doc([A("K", zws), B("B1", [A("Z", zws), dm.Z(zws)])])),
+            ("VB:frontmatter", Doc([A("K", S("v"))], frontmatter="name: x  \ndescription: y\t", meta=[("TYPE", S("T"))], separator=True)),
+            ("VB:empty-comment", Doc([A("K", S("v"), lead=("",)), B("B1", [A("L", S("w"), lead=("", "x"))]), A("Q", S("q"), trail="")]))]
 
 
 def run(ctx):
@@ -154,7 +178,7 @@ def run(ctx):
     ctx.explore("model.comments", dm.comment_sweep(2 if ctx.quick else 3), check_doc_singles, chunk=40)
     ctx.explore("model.adjacency", dm.adjacency_sweep(inside=("top",) if ctx.quick else ("top", "block", "section")),
                 check_doc_canonical, chunk=200)
-    ctx.explore("tools.values", dm.value_sweep(dm.SIMPLE_POOL if ctx.quick else None), check_tools, chunk=5)
+    ctx.explore("tools.values", dm.value_sweep(dm.SIMPLE_POOL if ctx.quick else None) + verbatim_docs(), check_tools, chunk=5)
     _cleanup()
 
 
